@@ -315,6 +315,11 @@ class Dimension:
         if msg is not None:
             raise IncompatibleDimensions(msg, "Dimension.link_data_array")
 
+        # HDF5 has no hard links between files: an object of another file is
+        # refused before the previous link is removed and the new one built
+        if data_array._h5group.group.file != self._h5group.group.file:
+            raise ValueError("Cannot link to an object of another file")
+
         msg = self._check_index(index)
         if msg is not None:
             raise ValueError(msg)
@@ -330,6 +335,9 @@ class Dimension:
         util.check_attr_type(index, int)
         if not 0 <= index < len(data_frame.columns):
             raise OutOfBounds("DataFrame index is out of bounds", index)
+        # ... and so is the file the frame lives in (no hard links between files)
+        if data_frame._h5group.group.file != self._h5group.group.file:
+            raise ValueError("Cannot link to an object of another file")
         if self.has_link:
             self.remove_link()
         DimensionLink.create_new(self._file, self, self._h5group,
